@@ -28,4 +28,14 @@ Definition x_app_dup : app := Build_app x_tns [x_s1; x_s2; x_s3].
 
 Definition x_table : table := match construct x_app with Built t => t | Rejected _ => [] end.
 Definition x_table_rev : table := match construct x_app_rev with Built t => t | Rejected _ => [] end.
-Definition x_ps : list hpat := collect_patterns x_table.
+Definition x_ps : list hpat := match server_patterns x_table with Built ps => ps | Rejected _ => [] end.
+Definition x_ps_rev : list hpat := match server_patterns x_table_rev with Built ps => ps | Rejected _ => [] end.
+
+(** class S4: "bar" with the HttpPattern S1.foobar already carries, and "baz" sharing only the address *)
+Definition x_pat : pat := Build_pat (Some [47; 97; 112; 105; 47; 60; 120; 62]) (Some x_GET).       (* GET /api/<x> *)
+Definition x_s4 : svc := Build_svc x_gen [83; 52] None false [mk 6 [98; 97; 114] [x_pat]].
+Definition x_s5 : svc := Build_svc x_gen [83; 53] None false
+  [mk 7 [98; 97; 122] [Build_pat (Some [47; 97; 112; 105; 47; 60; 120; 62]) None]].             (* any verb /api/<x> *)
+Definition x_app_pat : app := Build_app x_tns [x_s1; x_s4].
+Definition x_app_tie : app := Build_app x_tns [x_s5; x_s1; x_s2].
+Definition x_app_tie_rev : app := Build_app x_tns [x_s2; x_s1; x_s5].
